@@ -23,7 +23,7 @@ RULE = ("cells = kernel basis {RBF, Matern-ARD, Scale(RBF), RBF+Matern on differ
 ASSUMPTIONS = ["the eager dense matrix is the reference for the lazy one (C05 decides the values themselves)",
                "index tensors in one matrix dimension at a time together with slices/ints in the other; paired row/col tensors are also covered"]
 
-BASIS = ["rbf", "matern_ard", "scale_rbf", "sum_ad", "prod", "periodic", "multitask", "rbfgrad", "rq"]
+BASIS = ["rbf", "matern_ard", "scale_rbf", "sum_ad", "prod", "periodic", "multitask", "rbfgrad", "rq", "rbfgrad_ard"]
 TRIPLES = [((), (), ()), ((2,), (2,), (2,)), ((), (2,), (2,)), ((2,), (), ()), ((), (2,), ()), ((2,), (1,), (2,)), ((2, 1), (1, 3), (2, 3)),
            ((), (1, 3), (2, 1)), ((3,), (2, 3), (3,)), ((2,), (2,), ())]
 D = 3
@@ -53,6 +53,8 @@ def make_kernel(name, kb, ad):
         return K.MultitaskKernel(K.RBFKernel(**kw), num_tasks=2, rank=1, batch_shape=bs)
     if name == "rbfgrad":
         return K.RBFKernelGrad(**kw)
+    if name == "rbfgrad_ard":
+        return K.RBFKernelGrad(ard_num_dims=nd, **kw)
     raise AssertionError(name)
 
 
@@ -79,17 +81,17 @@ def cells(tier, seed):
             B = torch.broadcast_shapes(kb, x1b, x2b)
         except RuntimeError:
             continue
-        if kern in ("rbfgrad",) and not (kb == x1b == x2b or (kb == () and x1b == x2b)):
+        if kern in ("rbfgrad", "rbfgrad_ard") and not (kb == x1b == x2b or (kb == () and x1b == x2b)):
             continue
         if tier == "quick" and len(B) > 1 and kern not in ("rbf", "scale_rbf", "sum_ad"):
             continue
         base = {"kernel": kern, "kb": list(kb), "x1b": list(x1b), "x2b": list(x2b), "ad": ad}
         out.append(dict(base, what="relations"))
         # indexing: one cell per row index expression (all column expressions inside)
-        if tier == "quick" and (ad == [0] or kern in ("periodic", "rq", "prod") or (ad is not None and kern != "rbf")
+        if tier == "quick" and (ad == [0] or kern in ("periodic", "rq", "prod", "rbfgrad_ard") or (ad is not None and kern != "rbf")
                                 or (len(B) > 1 and kern != "rbf")):
             continue
-        nrow = 3 * (2 if kern == "multitask" else (1 + (D if ad is None else len(ad))) if kern == "rbfgrad" else 1)
+        nrow = 3 * (2 if kern == "multitask" else (1 + (D if ad is None else len(ad))) if kern in ("rbfgrad", "rbfgrad_ard") else 1)
         for ri in range(len(alpha(nrow, tier))):
             out.append(dict(base, what="index", row=ri, tier=tier))
     return out
@@ -190,7 +192,7 @@ def relations(cell, k, x1, x2, dense, fails, feats, seed):
         if cell["ad"] is not None and kern != "sum_ad":
             with fails.guard("active_dims"):
                 torch.manual_seed(util.seed_for(seed, "c06init"))
-                k0 = make_kernel(kern, tuple(cell["kb"]), None) if kern not in ("matern_ard", "rbfgrad") else None
+                k0 = make_kernel(kern, tuple(cell["kb"]), None) if kern not in ("matern_ard", "rbfgrad", "rbfgrad_ard") else None
                 if k0 is None:
                     raise util.Skip()
                 k0.load_state_dict({kk: v for kk, v in k.state_dict().items() if "active_dims" not in kk}, strict=False)
